@@ -125,6 +125,21 @@ def slices(rc):
     slice t to (name, s); `interface_nodes_K` holds (name, K) nodes.  A dictionary keyed in slice s filtered by membership in the slice-K
     interface nodes with s != K is always empty: observed interface nodes are then silently not carried to the next step."""
     repo = rc.repo
+    # the horizon is the largest SLICE index: evidence and query variables are (name, slice) tuples, and max()/min()/sorted() of such tuples compare the NAMES
+    # first — `max(evidence)[1]` is the slice of the alphabetically last variable, not the latest observed slice
+    n_ext = 0
+    for f in repo.cls(DI, "DBNInference").methods.values():
+        tupled = {p_ for p_ in f.params if p_ in ("evidence", "variables")}
+        for c in ast.walk(f.node):
+            if isinstance(c, ast.Call) and isinstance(c.func, ast.Name) and c.func.id in ("max", "min", "sorted") and c.args:
+                n_ext += 1
+                a0 = c.args[0]
+                if isinstance(a0, ast.Call) and call_name(a0) in ("keys", "list", "tuple", "set") and isinstance(getattr(a0.func, "value", None) or (a0.args[0] if a0.args else None), ast.Name):
+                    a0 = a0.func.value if isinstance(a0.func, ast.Attribute) else a0.args[0]
+                if isinstance(a0, ast.Name) and a0.id in tupled and kwarg(c, "key") is None:
+                    rc.fail(f, c, f"{f.qual}: `{norm(c, 50)}` orders the (name, slice) tuples of `{a0.id}` by NAME first: the horizon must be the largest slice index "
+                            "(e.g. max(t for _, t in evidence)); evidence after the slice of the alphabetically last variable is ignored", construct=f"{f.qual} extremum over (name, slice) tuples")
+    rc.ob(f"DBNInference: {n_ext} max/min/sorted call(s); none orders (name, slice) tuples")
     init = repo.func(DI, "DBNInference.__init__")
     for K in (0, 1):
         if not tm.has(init.node, f"self.interface_nodes_{K} = model.get_interface_nodes(time_slice={K})"):
@@ -338,6 +353,9 @@ def defuse(rc):
 _BW_MERGE = "            if evidence_time:\n                evidence_time.update(interface_nodes_dict)\n            mid_bp = BeliefPropagation(self.one_and_half_junction_tree)\n            self._update_belief(mid_bp, self.in_clique, potential_dict[time_slice - 1])"
 
 MUTANTS = [
+    dict(kind="break", name="horizon-from-max-tuple", file=DI, expect="C17.slices",
+         old="            evid_time_range = max([time_slice for var, time_slice in evidence.keys()])\n            time_range = max(time_range, evid_time_range)\n\n        start_bp",
+         new="            evid_time_range = max(evidence)[1]\n            time_range = max(time_range, evid_time_range)\n\n        start_bp"),
     dict(kind="break", name="update-belief-divides-first", file=DI, expect="C17.engines",
          old="                new_factor = old_factor * message\n                new_factor = new_factor / clique_potential", new="                new_factor = (old_factor / clique_potential) * message"),
     dict(kind="repair", name="backward-merges-whenever-carried-evidence-exists", file=DI, gone="C17.carry",
